@@ -31,6 +31,8 @@ class FrameRig:
         if self.task is not None and not self.task.done():
             self.task.cancel()
             self._spin()
+        self.conn.close()  # cancels a receive still pending
+        self._spin()
         self.loop.close()
         for s in (self.a, self.b):
             try:
@@ -63,6 +65,32 @@ class FrameRig:
         if self.dead:
             return '-'
         self.b.sendall(bs)
+        return ';'.join(self._pump()) or '-'
+
+    def feed_racing_cancel(self, bs: bytes) -> str:
+        """The bytes arrive in the very event-loop iteration in which the caller's timeout fires:
+        the socket future is completed first, then the task is cancelled (timer callbacks run
+        after I/O callbacks), as `wait_for(read_message(), 0.1)` does when both coincide."""
+        if self.dead:
+            return '-'
+        if self.task is None:
+            self.task = self.loop.create_task(self.conn.reader_async())
+            self._spin()
+        task = self.task
+        self.b.sendall(bs)
+        self.loop.call_later(0, task.cancel)
+        self._spin()
+        if task.done() and not task.cancelled():
+            # the read completed before the cancellation took effect: deliver what it returned
+            length, msg, header, body, err = task.result()
+            self.task = None
+            if err is not None:
+                self.dead = True
+                return f'err {err.code} {err.subcode}'
+            first = f'msg {msg} {bytes(body).hex() or "-"}'
+            rest = self._pump()
+            return ';'.join([first] + rest)
+        self.task = None
         return ';'.join(self._pump()) or '-'
 
     def cancel(self) -> str:
